@@ -7,7 +7,9 @@
 (*                                                                            *)
 (* The environment is the peer: it accepts, refuses or never answers          *)
 (* connection attempts, sends bytes, drops the connection; the application    *)
-(* may close the node at any time.                                            *)
+(* may close the node at any time and may write to the open connection       *)
+(* (NodeWrite: heartbeats, application messages), which in the code as it is  *)
+(* has no effect on the read deadline.                                        *)
 (*                                                                            *)
 (* Design = "repaired"       the code as it is                                *)
 (* Design = "eager_retry"    a failed connect is retried at once (no delay)   *)
@@ -15,7 +17,11 @@
 (*                           is made, not per Read: an active connection is   *)
 (*                           closed all the same                              *)
 (* Design = "no_dial_timeout" a dial that is never answered hangs for ever    *)
-(* The last three are kept to show that TLC refutes them (IClient_*.cfg).     *)
+(* Design = "write_extends_deadline"  a successful Write pushes the pending   *)
+(*                           Read's deadline forward ("the peer took our      *)
+(*                           data, the link is alive"): a silent peer is      *)
+(*                           never expired while the node keeps writing       *)
+(* The last four are kept to show that TLC refutes them (IClient_*.cfg).      *)
 EXTENDS Integers, Sequences, FiniteSets, ReconnRule
 
 CONSTANTS P,        \* reconnect period (ticks)
@@ -96,6 +102,13 @@ SetMode(m) ==
   /\ UNCHANGED <<now, pc, timer, deadline, attempts, fails, opens, closes, rx>>
 
 \* --------------------------------------------------------------- the application
+\* the node writes to the open connection (timednetconn.Write arms a WRITE deadline only)
+NodeWrite ==
+  /\ pc = "connected" /\ budget > 0 /\ now < deadline
+  /\ deadline' = (IF Design = "write_extends_deadline" THEN now + I ELSE deadline)
+  /\ budget' = budget - 1
+  /\ UNCHANGED <<now, pc, timer, smode, attempts, fails, opens, closes, rx>>
+
 Close ==
   /\ pc # "done"
   /\ closes' = (IF pc = "connected" THEN Append(closes, [t |-> now, cause |-> "closing"]) ELSE closes)
@@ -115,7 +128,7 @@ Tick ==
   /\ now' = now + 1
   /\ UNCHANGED <<pc, timer, smode, deadline, budget, attempts, fails, opens, closes, rx>>
 
-Next == Connect \/ DialTimeout \/ IdleExpire \/ Send \/ Drop \/ Close \/ Tick \/ \E m \in Modes : SetMode(m)
+Next == Connect \/ DialTimeout \/ IdleExpire \/ Send \/ Drop \/ NodeWrite \/ Close \/ Tick \/ \E m \in Modes : SetMode(m)
 
 Spec == Init /\ [][Next]_vars
 
@@ -147,6 +160,7 @@ IdleRule ==
   \A i \in 1..Len(closes) : closes[i].cause = "idle" =>
      LET rxBefore == {opens[i]} \cup (IF i = Len(closes) /\ i = Len(opens) /\ pc # "connected" THEN {rx[k] : k \in 1..Len(rx)} ELSE {})
      IN i < Len(opens) \/ IdleCloseOk(closes[i].t, CHOOSE r \in rxBefore : \A q \in rxBefore : q <= r, I, 0, 0)
-\* ... and a connection that keeps receiving (gaps below I) is not closed by it
+\* ... and no connection stays open for longer than I after the last thing it received, whatever the node itself sends
+\* (with IdleRule: a connection that keeps receiving, gaps below I, is not closed by the timeout)
 ActiveNotClosed == pc = "connected" => now <= (IF rx = <<>> THEN Last(opens) ELSE Last(rx)) + I
 =============================================================================
